@@ -77,6 +77,7 @@ impl<'a, SlotType: 'a + Debug> MMapMeta<'a, SlotType> {
 
     /// Returns a single subscriber -- for forthcoming events only
     pub fn subscribe_to_new_events_only(self: &Arc<Self>) -> MMapMetaDynamicSubscriber<'a, SlotType> {
+        vp!("mm.s.load");
         let first_element_slot_id = self.mmap_contents.consumer_tail.load(Relaxed);
         MMapMetaDynamicSubscriber {
             head:                AtomicUsize::new(first_element_slot_id),
@@ -92,6 +93,7 @@ impl<'a, SlotType: 'a + Debug> MMapMeta<'a, SlotType> {
     /// The split is guaranteed not to miss any events: no events will be lost between the last of the "past" and
     /// the first of the "forthcoming" events
     pub fn subscribe_to_separated_old_and_new_events(self: &Arc<Self>) -> (MMapMetaFixedSubscriber<'a, SlotType>, MMapMetaDynamicSubscriber<'a, SlotType>) {
+        vp!("mm.s.load");
         let tail = self.mmap_contents.consumer_tail.load(Relaxed);
         (
             MMapMetaFixedSubscriber {
@@ -176,11 +178,15 @@ impl<'a, SlotType: 'a + Debug> MetaPublisher<'a, SlotType> for MMapMeta<'a, Slot
     #[inline(always)]
     fn publish<F: FnOnce(&mut SlotType)>(&self, setter: F) -> (Option<NonZeroU32>, Option<F>) {
         let mutable_self = unsafe { &mut *(*(self as *const Self as *const std::cell::UnsafeCell<Self>)).get() };
+        vp!("mm.p.fetch");
         let tail = self.mmap_contents.publisher_tail.fetch_add(1, Relaxed);
         let slot = unsafe { mutable_self.buffer.get_unchecked_mut(tail) };
+        vp!("mm.p.write", tail);
         setter(slot);
+        vp!("mm.p.publish", tail);
         while self.mmap_contents.consumer_tail.compare_exchange_weak(tail, tail+1, Relaxed, Relaxed).is_err() {
             std::hint::spin_loop();
+            vp!("mm.p.publish", tail);
         }
         (NonZeroU32::new(1 + tail as u32), None)
     }
@@ -267,16 +273,20 @@ impl<'a, SlotType: 'a + Debug> MetaSubscriber<'a, SlotType> for MMapMetaDynamicS
               -> Option<GetterReturnType> {
 
         let mutable_self = unsafe { &mut *(*(self as *const Self as *const std::cell::UnsafeCell<Self>)).get() };
+        vp!("mm.c.fetch");
         let head = self.head.fetch_add(1, Relaxed);
+        vp!("mm.c.loadtail", head);
         let tail = self.meta_mmap_log_topic.mmap_contents.consumer_tail.load(Relaxed);
         // check if there is an element available
         if head >= tail {
+            vp!("mm.c.recede", head);
             while self.head.compare_exchange_weak(head+1, head, Relaxed, Relaxed).is_err() {
                 std::hint::spin_loop();
             }
             report_empty_fn();
             return None;
         }
+        vp!("mm.c.read", head);
         let slot_ref = unsafe { mutable_self.buffer.get_unchecked(head) };
         report_len_after_dequeueing_fn((tail - head) as i32);
         Some(getter_fn(slot_ref))
@@ -325,15 +335,18 @@ impl<'a, SlotType: 'a + Debug> MetaSubscriber<'a, SlotType> for MMapMetaFixedSub
               -> Option<GetterReturnType> {
 
         let mutable_self = unsafe { &mut *(*(self as *const Self as *const std::cell::UnsafeCell<Self>)).get() };
+        vp!("mm.c.fetch");
         let head = self.head.fetch_add(1, Relaxed);
         // check if there is an element available
         if head >= self.fixed_tail {
+            vp!("mm.c.recede", head);
             while self.head.compare_exchange_weak(head+1, head, Relaxed, Relaxed).is_err() {
                 std::hint::spin_loop();
             }
             report_empty_fn();
             return None;
         }
+        vp!("mm.c.read", head);
         let slot_ref = unsafe { mutable_self.buffer.get_unchecked(head) };
         report_len_after_dequeueing_fn((self.fixed_tail - head) as i32);
         Some(getter_fn(slot_ref))
